@@ -189,7 +189,9 @@ func genBlockNum(t *rapid.T, used map[uint64]bool) uint64 {
 	}
 }
 
-var unknownTypes = []uint64{2, 3, 4, 5, 8, 9, 11, 12, 23, 24, 100, 191, 196, 255, 256, 65535, 65536, 1 << 32, math.MaxUint64}
+var unknownTypes = []uint64{2, 3, 4, 5, 8, 9, 11, 12, 23, 24, 100, 191, 196, 255, 256, 65535, 65536, 1 << 32, math.MaxUint64,
+	// unknown codes that equal a known code in their low 8, 16 or 32 bits (payload 1, previous node 6, age 7, hop count 10, the routing blocks 192..195)
+	257, 262, 263, 266, 448, 449, 450, 451, 65537, 65542, 65543, 65546, 65728, 1<<32 + 1, 1<<32 + 7, 1<<32 + 10, 1<<32 + 194}
 
 // GenBundle generates a valid bundle description.
 func GenBundle(o GenOpts) *rapid.Generator[BundleSpec] {
